@@ -352,6 +352,17 @@ fn point_events(tr: &mut Tr, name: &str, eos: &Arc<M>, calibrated: bool, t: Temp
                             guesses.push(json!({"guess": gn, "res": eq2(&r)}));
                         }
                     }
+                    // a flash of ANOTHER feed at the same T and p (a point of the same tie line for a binary): its phases already satisfy the equilibrium
+                    // conditions, only the amounts belong to the other feed (sweeps over the feed composition at fixed T, p are warm-started like this)
+                    {
+                        let zo = &f0.vapor().molefracs * 0.45 + &f0.liquid().molefracs * 0.55;
+                        let other = Moles::from_reduced(&zo * 1.7);
+                        let tight = opts().tol(1e-12);
+                        if let Ok(fo) = g(|| PhaseEquilibrium::tp_flash(&eos, t, p, &other, None, tight, None)) {
+                            let r = g(|| PhaseEquilibrium::tp_flash(&eos, t, p, &feed, Some(&fo), opts(), None));
+                            guesses.push(json!({"guess": "flash of another feed at the same T and p as initial state", "res": eq2(&r)}));
+                        }
+                    }
                     // C07: converged phases are stable
                     for ph in [f0.vapor(), f0.liquid()] {
                         stability_event(tr, name, &eos, ph.temperature, ph.density, &ph.molefracs, "stable");
